@@ -271,6 +271,26 @@ def VariableSet.step (s : VariableSet) : Op → VariableSet × Res
     | (s1, .readOnly l) => (s1, .readOnly l)
   | .setParams ps => (s.setPositionalParams ps, .done)
 
+/-- `VariableSet::get_scalar`: the value of a scalar variable (`None` for unset values and arrays) -/
+def scalarOf : Option Variable → Option String
+  | some { value := some (.scalar x), .. } => some x
+  | _ => none
+
+def VariableSet.getScalar (s : VariableSet) (n : Name) : Option String := scalarOf (s.get n)
+
+/-- one round of the loop of `VariableSet::extend_env`: `get_or_new(name, Global)`, `assign`, and
+    `export(true)` only if the assignment was not refused (the second `get_or_new` hidden in the
+    `export` operation finds the same variable again) -/
+def VariableSet.extendEnv1 (s : VariableSet) (n : Name) (v : String) : VariableSet :=
+  match s.step (.assign n .global (.scalar v) none) with
+  | (s1, .readOnly _) => s1
+  | (s1, _) => (s1.step (.export n .global true)).1
+
+/-- `VariableSet::extend_env` -/
+def VariableSet.extendEnv (s : VariableSet) : List (Name × String) → VariableSet
+  | [] => s
+  | (n, v) :: t => (s.extendEnv1 n v).extendEnv t
+
 def VariableSet.run (s : VariableSet) : List Op → VariableSet
   | [] => s
   | op :: ops => (s.step op).1.run ops
